@@ -89,6 +89,27 @@ def asColumnInfo (columnType : List Char) : Option ColumnInfo :=
       | .binary => some { type := t, length := some 8388608, byteLength := some 8388608 }
       | _ => some { type := t }
 
+/-- `describe_as_rowtype`: one entry per DESCRIBE row, **by position** (a list comprehension over the rows); `none` = some column's
+    type is unmapped (NotImplementedError) -/
+def describeAsRowtype : List (List Char × List Char) → Option (List (List Char × ColumnInfo))
+  | [] => some []
+  | (n, t) :: rest =>
+    match asColumnInfo t, describeAsRowtype rest with
+    | some ci, some out => some ((n, ci) :: out)
+    | _, _ => none
+
+/-- the same built through a dict keyed by column name (what it must NOT do): a repeated name keeps its first position and
+    takes the last column's type; the list gets shorter -/
+def describeAsRowtypeByName : List (List Char × List Char) → Option (List (List Char × ColumnInfo))
+  | [] => some []
+  | (n, t) :: rest =>
+    match asColumnInfo t, describeAsRowtypeByName rest with
+    | some ci, some out =>
+      match out.find? (·.1 == n) with
+      | some later => some ((n, later.2) :: out.filter (·.1 != n))     -- the later entry overwrites the value, the key keeps its place
+      | none => some ((n, ci) :: out)
+    | _, _ => none
+
 /-- decimal digits of a number, most significant first (`str(n)`) -/
 def digitsAux : Nat → Nat → List Char → List Char
   | 0, _, acc => acc
